@@ -258,6 +258,17 @@ fn main() {
             }
             0
         }
+        Some("miri-concurrent") => {
+            // layer A2, second phase (see session::run_concurrent): small items of every kind of shared helper
+            let seed: u64 = arg(&args, "--seed").map(|s| s.parse().unwrap()).unwrap_or(1);
+            let threads: usize = arg(&args, "--threads").map(|s| s.parse().unwrap()).unwrap_or(3);
+            let keys: Vec<workload::Key> = workload::CONCURRENT_ITEMS.iter().map(|(d, i)| workload::Key { derive: d.to_string(), item: i.to_string() }).collect();
+            for o in session::run_concurrent(&keys, threads, seed) {
+                let k = &keys[o.k];
+                println!("OBS {:016x} {} {} w={} gen={}", rng::fnv(format!("{}|{}", k.derive, k.item).as_bytes()), o.class, o.digest, o.w, o.gen);
+            }
+            0
+        }
         Some("emit-keys") => {
             // key table for the real-rustc and Miri layers: families (seeded), faults, harvested
             let seed: u64 = arg(&args, "--seed").map(|s| s.parse().unwrap()).unwrap_or(1);
